@@ -766,6 +766,9 @@ func (r *FnRun) execSlice(st *State, x *ssa.Slice) {
 		return
 	case KRef:
 		// pointer to array
+		if g, isG := x.X.(*ssa.Global); isG && r.W.zeroGlobals[g] {
+			st.assume(sEq(sx("select", st.heap["A"], base.S), "((as const (Array Int Int)) 0)"))
+		}
 		at := derefType(x.X.Type()).Underlying().(*types.Array)
 		n := fmt.Sprint(at.Len())
 		if x.High != nil {
@@ -983,8 +986,8 @@ func (r *FnRun) assertAtName(st *State, site ssa.Instruction, name string, args 
 		}
 		g := env.eval(aa.Clause.Expr)
 		if env.err != nil {
-			r.errorf("%s:%d: %v", aa.Clause.File, aa.Clause.Line, env.err)
-			return
+			r.unstatable(st, "assert", sanitize(aa.Callee), aa.Clause, env.err)
+			continue
 		}
 		props := r.C.Serves
 		if len(aa.Clause.Props) > 0 {
